@@ -44,7 +44,7 @@ WHAT = {
 
 def load_dumps():
     obs = {}
-    for f in sorted(glob.glob(os.path.join(HERE, "measure", "*.json"))):
+    for f in sorted(glob.glob(os.path.join(HERE, "measure", "C*.json"))):
         pid = os.path.basename(f).split("_")[0]
         for v in json.load(open(f)):
             sig = v["sig"]
@@ -96,6 +96,19 @@ def main():
                              "what": "[%s, %s] %s -> %s" % (flavor, "+".join(sorted(core)), what, "/".join(clauses)),
                              "match": match, "exemplar": ex[0] if ex else None, "seen": n,
                              "measured_in": sorted({src for hz, cl, _, _, src in items if core <= hz})})
+    # merge: the measurement dumps only contain what the findings in force did NOT already cover, so earlier hazard cores
+    # are kept (a stratum-wide finding that is wider than necessary is harmless: baseline/<id>.json identifies the exact
+    # behaviours) and new cores / clauses are added
+    old = {f["id"]: f for f in data["findings"] if f.get("auto")}
+    for f in auto:
+        if f["id"] in old:
+            o = old[f["id"]]
+            o["match"]["clause"] = sorted(set(o["match"]["clause"]) | set(f["match"]["clause"]))
+            o["seen"] = o.get("seen", 0) + f["seen"]
+            o["measured_in"] = sorted(set(o.get("measured_in", [])) | set(f["measured_in"]))
+        else:
+            old[f["id"]] = f
+    auto = [old[k] for k in sorted(old)]
     data["findings"] = keep + auto
     json.dump(data, open(path, "w"), indent=1)
     print("kept %d hand-written, generated %d hazard findings" % (len(keep), len(auto)))
